@@ -178,12 +178,53 @@ package router
 //@   callsite Store: [C08:negative-flag] arg5 == (resp.RCode != 0)
 //@   callsite Store: [C08:lifetime] tns(arg3) - tns(arg2) == lifeOf(resp.RCode, hasRr, int(u) * sec(), int(c.maximumTtl))
 //@   callsite AsyncStore: [C08:never-truncated-redis] resp != nil && !resp.Truncated && arg5 == (resp.RCode != 0)
-//@ func (r *router) forward(ctx context.Context, upstream *upstreamWrapper, q *dnsmsg.Question, remoteAddr netip.Addr) (resp *dnsmsg.Msg, err error)
+//@ func (uw *upstreamWrapper) Exchange(ctx context.Context, m []byte) (r *dnsmsg.Msg, err error)
 //@   trusted
+//@   requires uw != nil
+//@   modifies nothing
+//@   ensures err == nil ==> r != nil && fresh(r) && wfMsg(r) && distinctFreshSecs(r) && len(r.Questions) <= 65535 && len(r.Answers) <= 65535 && len(r.Authorities) <= 65535 && len(r.Additionals) <= 65535
+//@   ensures err != nil ==> r == nil
+// a decoded reply is made of fresh objects only (its additional array and the records in it)
+//@ spec func distinctFreshSecs(m *dnsmsg.Msg) bool = (m.Additionals == nil || fresh(m.Additionals)) && forall(k, 0, len(m.Additionals), fresh(m.Additionals[k]))
+
+// packReq: the upstream query is RD=1, opcode QUERY, exactly the request's question (a private copy), no answer or
+// authority records and exactly one additional record: the proxy's own OPT (udp size 1200), whose only option
+// is the Client Subnet option when ECS is enabled and the client address is valid, and nothing otherwise.
+// It is packed without compression and without a size limit into a buffer of exactly its length.
+//@ func (r *router) packReq(q *dnsmsg.Question, remoteAddr netip.Addr) (b pool.Buffer, err error)
+//@   props C10 C12 C20
+//@   requires r != nil && q != nil
+//@   ghost gecs []byte = nil
+//@   ghost nEcs int = 0
+//@   oncall makeEdns0ClientSubnetReqOpt?: nEcs = nEcs + 1
+//@   aftercall makeEdns0ClientSubnetReqOpt?: gecs = ret0
+//@   modifies nothing
+//@   ensures err == nil ==> b != nil && fresh(b)
+//@   ensures err != nil ==> b == nil
+//@   ensures [C12:ecs-only-when-enabled-and-known] nEcs == ((r.opt.ecsEnabled && isValidAddr(remoteAddr)) ? 1 : 0)
+//@   callsite makeEdns0ClientSubnetReqOpt?: [C12:ecs-from-client-address] arg0 == remoteAddr
+//@   callsite Pack: [C10:query-header] arg0.RecursionDesired && !arg0.Response && arg0.OpCode == 0 && arg0.RCode == 0 && !arg0.Truncated
+//@   callsite Pack: [C10:exactly-that-question] len(arg0.Questions) == 1 && arg0.Questions[0] != nil && arg0.Questions[0] != q && arg0.Questions[0].Type == q.Type && arg0.Questions[0].Class == q.Class
+//@             && len(arg0.Questions[0].Name) == len(q.Name) && bytesEq(arg0.Questions[0].Name, 0, q.Name, 0, len(q.Name))
+//@   callsite Pack: [C12:one-own-opt] len(arg0.Answers) == 0 && len(arg0.Authorities) == 0 && len(arg0.Additionals) == 1 && isOPT(arg0.Additionals[0])
+//@             && typeIs(arg0.Additionals[0], *dnsmsg.RawResource) && ptrOf(arg0.Additionals[0], dnsmsg.RawResource).Class == dnsmsg.Class(1200)
+//@             && (nEcs == 1 ==> ptrOf(arg0.Additionals[0], dnsmsg.RawResource).Data == gecs) && (nEcs == 0 ==> ptrOf(arg0.Additionals[0], dnsmsg.RawResource).Data == nil)
+//@   callsite Pack: [C02:plain-encoding] arg2 == false && arg3 == 0
+
+// forward: the packed query goes to exactly the given upstream, once; the reply comes back with every OPT record
+// removed (EDNS0 ends at the proxy).
+//@ func (r *router) forward(ctx context.Context, upstream *upstreamWrapper, q *dnsmsg.Question, remoteAddr netip.Addr) (resp *dnsmsg.Msg, err error)
+//@   props C10 C12
 //@   requires r != nil && upstream != nil && q != nil
+//@   ghost nEx int = 0
+//@   ghost gw pool.Buffer = nil
+//@   aftercall packReq: gw = ret0
+//@   oncall Exchange?: nEx = nEx + 1
 //@   modifies nothing
 //@   ensures err == nil ==> resp != nil && fresh(resp) && wfMsg(resp) && noOPT(resp.Additionals) && (resp.Additionals == nil || fresh(resp.Additionals)) && len(resp.Questions) <= 65535 && len(resp.Answers) <= 65535 && len(resp.Authorities) <= 65535 && len(resp.Additionals) <= 65535
 //@   ensures err != nil ==> resp == nil
+//@   ensures [C10:at-most-one-exchange] nEx <= 1
+//@   callsite Exchange?: [C10:that-upstream-that-query] arg0 == upstream && arg1 == ctx && sameSlice(arg2, gw, 0, len(gw))
 
 //@ func (r *router) handleReq(ctx context.Context, q *dnsmsg.Question, rc *RequestContext)
 //@   props C03 C10 C12 C01
